@@ -3,6 +3,7 @@ package main
 // Contract files: clause blocks in //@ comments, and the spec expression parser.
 
 import (
+	"encoding/json"
 	"fmt"
 	"os"
 	"regexp"
@@ -58,6 +59,7 @@ type FuncSpec struct {
 	Props     []*Clause // propagates
 	Tols      []*Clause // tolerates
 	Only      []*Clause // failsonly
+	Steps     []*Clause // loop N step E: relation between the state at the loop head (prev(e)) and at the end of one iteration
 	Modifies  []string
 	HasMod    bool
 	LoopMods  map[int][]string
@@ -112,12 +114,14 @@ type SpecSet struct {
 	Ghosts   map[string]*GhostDecl
 	Axioms   []*Axiom
 	Guards   []Guard
+	Cones    map[string][]string // property tag -> root functions: frame:pkgstate obligations of functions reachable from a root carry the tag
+	PkgState map[string]string // package-level variable -> kind ("readonly" | "mutable"): the declared process-wide state
 	Cleans   map[string]map[string]string // struct -> field -> condition text ("zero", "len0", "exempt:...")
 	Preds    map[string]*Pred
 }
 
 func newSpecSet() *SpecSet {
-	return &SpecSet{Funcs: map[string]*FuncSpec{}, SpecFuns: map[string]*SpecFun{}, Ghosts: map[string]*GhostDecl{}, Cleans: map[string]map[string]string{}, Preds: map[string]*Pred{}}
+	return &SpecSet{Funcs: map[string]*FuncSpec{}, SpecFuns: map[string]*SpecFun{}, Ghosts: map[string]*GhostDecl{}, Cleans: map[string]map[string]string{}, Preds: map[string]*Pred{}, PkgState: map[string]string{}, Cones: map[string][]string{}}
 }
 
 var tagRe = regexp.MustCompile(`\s*\[((?:C\d+)(?:\s*,\s*C\d+)*)\]\s*$`)
@@ -410,6 +414,20 @@ func (ss *SpecSet) parseFile(path string) error {
 				}
 				c.Ord = cnt + 1
 				cur.Invs = append(cur.Invs, c)
+			case "step":
+				c, err := mk("step", body)
+				if err != nil {
+					return err
+				}
+				c.Loop = n
+				cnt := 0
+				for _, x := range cur.Steps {
+					if x.Loop == n {
+						cnt++
+					}
+				}
+				c.Ord = cnt + 1
+				cur.Steps = append(cur.Steps, c)
 			case "modifies":
 				for _, x := range strings.Split(body, ",") {
 					cur.LoopMods[n] = append(cur.LoopMods[n], strings.TrimSpace(x))
@@ -582,6 +600,22 @@ func (ss *SpecSet) parseFile(path string) error {
 			c.Site = strings.TrimSpace(rest[:i])
 			c.Ord = 900 + len(ss.Invariants)
 			ss.Invariants = append(ss.Invariants, c)
+		case "cone":
+			// cone TAG root, root
+			f := strings.SplitN(rest, " ", 2)
+			if len(f) != 2 {
+				return fail("cone TAG root, root")
+			}
+			for _, r := range strings.Split(f[1], ",") {
+				ss.Cones[f[0]] = append(ss.Cones[f[0]], strings.TrimSpace(r))
+			}
+		case "pkgstate":
+			// pkgstate NAME readonly|mutable reason...
+			f := strings.Fields(rest)
+			if len(f) < 2 || (f[1] != "readonly" && f[1] != "mutable") {
+				return fail("pkgstate NAME readonly|mutable reason")
+			}
+			ss.PkgState[f[0]] = f[1]
 		case "guarded":
 			// guarded T.f by m
 			f := strings.Fields(rest)
@@ -1028,4 +1062,53 @@ func splitTop(s string) []string {
 		}
 	}
 	return append(out, s[start:])
+}
+
+// DepTag: a property tag added to a contract clause because a proof tagged with that property rests on the clause
+// (computed by the proof-dependency audit, see depsAudit).
+type DepTag struct {
+	Owner string   `json:"owner"`
+	Kind  string   `json:"kind"`
+	Text  string   `json:"text"`
+	Add   []string `json:"add"`
+	Why   []string `json:"because,omitempty"`
+}
+
+func (ss *SpecSet) applyDepTags(path string) error {
+	b, err := os.ReadFile(path)
+	if err != nil {
+		return nil // no table: declared tags only
+	}
+	var ds []DepTag
+	if err := json.Unmarshal(b, &ds); err != nil {
+		return fmt.Errorf("%s: %v", path, err)
+	}
+	for _, d := range ds {
+		sp := ss.Funcs[d.Owner]
+		if sp == nil {
+			continue // contract of another build
+		}
+		for _, cs := range [][]*Clause{sp.Requires, sp.Ensures, sp.Invs} {
+			for _, c := range cs {
+				if c.Kind != d.Kind || c.Text != d.Text {
+					continue
+				}
+				if len(c.Tags) == 0 {
+					// the clause is checked under every tag of its function: widen the function
+					for _, t := range d.Add {
+						if !hasTag(sp.Tags, t) {
+							sp.Tags = append(append([]string(nil), sp.Tags...), t)
+						}
+					}
+					continue
+				}
+				for _, t := range d.Add {
+					if !hasTag(c.Tags, t) {
+						c.Tags = append(append([]string(nil), c.Tags...), t)
+					}
+				}
+			}
+		}
+	}
+	return nil
 }
